@@ -232,9 +232,26 @@ def sub(a: int, b: int) -> int:
     return a - b
 
 
+# No value that fits a PDP-11 word, nor any intermediate result one could want, needs a shift by
+# more bits than this; carrying such a shift out would only exhaust memory
+MAX_SHIFT = 2 ** 16
+
+
+def is_shift_count_sane(token, b):
+    if -MAX_SHIFT <= b <= MAX_SHIFT:
+        return True
+    reports.error(
+        "arithmetic-error",
+        (token.ctx_start, token.ctx_end, f"Shift by {b} bits: the shift count is out of any reasonable range")
+    )
+    return False
+
+
 @operator("x << x", precedence=5, associativity="left", awaited=False, pure=False, token=True)
 def lshift(token, a: int, b: int) -> int:
     b = wait(b)
+    if not is_shift_count_sane(token, b):
+        return 0
     if b >= 0:
         return a * 2 ** b
     else:
@@ -248,6 +265,8 @@ def lshift(token, a: int, b: int) -> int:
 @operator("x >> x", precedence=5, associativity="left", awaited=False, pure=False, token=True)
 def rshift(token, a: int, b: int) -> int:
     b = wait(b)
+    if not is_shift_count_sane(token, b):
+        return 0
     if b == 0:
         return a
     elif b > 0:
@@ -262,8 +281,10 @@ def rshift(token, a: int, b: int) -> int:
 
 
 # It seems they were running out of characters.
-@operator("x _ x", precedence=5, associativity="left")
-def lsh(a: int, b: int) -> int:
+@operator("x _ x", precedence=5, associativity="left", token=True)
+def lsh(token, a: int, b: int) -> int:
+    if not is_shift_count_sane(token, b):
+        return 0
     if b >= 0:
         return a << b
     else:
